@@ -1041,7 +1041,7 @@ static void run_reload_case(struct rng *r, long c, int nepoch, int nrec, int nre
 	if (nepoch > MAXEPOCH)
 		nepoch = MAXEPOCH;
 	VNOW = 1000000;
-	universe_build(&RU, r, nrec, MAX_K);
+	universe_build(&RU, r, nrec, BASE_K);
 	/* data sets: a common core, the rest flips between epochs */
 	bset core_p, core_k;
 
@@ -1153,12 +1153,20 @@ static void run_reload_case(struct rng *r, long c, int nepoch, int nrec, int nre
 	/* some reloads are cut short after a few PDUs (the cache falls silent): the old set must stay in place,
 	 * and the retry must be as atomic as the first attempt */
 	{
-		int q = 2, nfail = 0;
+		int q = 2, nfail = 0, nrej = 0;
 
 		for (int e = 1; e <= nepoch && q < MAX_XPLAN - 2; e++) {
 			if (rndp(r, 1, 3)) {
-				s->cfg.xplan[q].defect = D_TRUNCATE_SILENT;
-				s->cfg.xplan[q].pos = -3;
+				if (rndp(r, 1, 2)) {
+					s->cfg.xplan[q].defect = D_TRUNCATE_SILENT;
+					s->cfg.xplan[q].pos = -3;
+				} else {
+					/* ... or are complete but unacceptable (a record announced twice): the client finds out
+					 * when it applies the End of Data and has to take back what it had applied so far */
+					s->cfg.xplan[q].defect = D_DUP_ANNOUNCE;
+					s->cfg.xplan[q].pos = -1;
+					nrej++;
+				}
 				s->cfg.xplan[q].param = 0;
 				q += 1; /* the retry is one more Reset Query */
 				nfail++;
@@ -1170,7 +1178,8 @@ static void run_reload_case(struct rng *r, long c, int nepoch, int nrec, int nre
 		}
 		s->cfg.nxplan = q < MAX_XPLAN ? q : MAX_XPLAN;
 		s->cfg.max_queries += nfail;
-		cnt_add("c06/reloads_cut_short_then_retried", (uint64_t)nfail);
+		cnt_add("c06/reloads_cut_short_then_retried", (uint64_t)(nfail - nrej));
+		cnt_add("c06/reloads_rejected_at_end_of_data_then_retried", (uint64_t)nrej);
 	}
 	rd = calloc((size_t)nreaders, sizeof(*rd));
 	for (int i = 0; i < nreaders; i++) {
